@@ -24,6 +24,32 @@ def strip_comments(src):
     src = re.sub(r"/\*.*?\*/", "", src, flags=re.S)
     return src
 
+def strip_hooks(src):
+    """removes items/statements guarded by #[cfg(melstf_verif)] (the verification hooks)"""
+    out = []
+    i = 0
+    tag = "#[cfg(melstf_verif)]"
+    while True:
+        j = src.find(tag, i)
+        if j < 0:
+            out.append(src[i:])
+            break
+        out.append(src[i:j])
+        k = j + len(tag)
+        # the guarded item ends at the first `;` at depth 0 or at the end of its first balanced `{}` block
+        depth = 0
+        while k < len(src):
+            c = src[k]
+            if c == "{":
+                k = match_brace(src, k)
+                break
+            if c == ";":
+                k += 1
+                break
+            k += 1
+        i = k
+    return "".join(out)
+
 def match_brace(src, i):
     """src[i] == '{' -> index just after the matching '}'"""
     assert src[i] == "{"
@@ -181,7 +207,7 @@ def shape_of_types(name, args):
 
 def parse_opcode_rs(opbytes):
     src = strip_comments(open(f"{REPO}/lib/melvm/src/opcode.rs").read())
-    src = src.split("#[cfg(test)]")[0]
+    src = strip_hooks(src.split("#[cfg(test)]")[0])
     types = parse_enum(src)
     if sorted(types) != sorted(TAGS):
         raise Untranslatable(f"opcode.rs: OpCode variants {sorted(set(types) ^ set(TAGS))} differ from the model's constructors")
